@@ -276,6 +276,7 @@ func (s *Sim) doAction(a *Action) {
 		o := s.current(a.Inst)
 		if o != nil {
 			// wait for in-progress stop calls first (see below), then decide
+			waited := false
 			for {
 				s.mu.Lock()
 				ch := o.stopIdle
@@ -284,11 +285,18 @@ func (s *Sim) doAction(a *Action) {
 				if !busy {
 					break
 				}
+				waited = true
 				select {
 				case <-ch:
 				case <-s.teardownCh:
 					return
 				}
+			}
+			if waited {
+				// StopWithContext{WaitForDemote:false} runs OnDemote in a goroutine of
+				// its own; let it run before the next term can begin (the restart
+				// happens strictly after the stop returned, not in the same instant).
+				s.sleepI(1)
 			}
 		}
 		if o != nil && o.stopFailed {
